@@ -9,6 +9,19 @@ ThreadsDied(o) == {o.errs[i] : i \in (DOMAIN o.errs) \ {1}} \ {"none"}
 SigOf(o) == <<o.variant, CallerRaised(o), ThreadsDied(o)>>
 Say(tag, prop, clause, o) == PrintT(ToJson(<<tag, prop, clause, o.k, SigOf(o)>>))
 Chk(P, prop, clause, o) == IF P THEN TRUE ELSE Say("VIOL", prop, clause, o)
+\* spec -> code: a behaviour of OdmlLoader (LoaderBeh) replayed as a schedule.  The real code follows it iff it
+\* produces the same sequence of observable events (same thread, same kind of access, same url / thread argument),
+\* stops where the model stops, and ends with the same outcome: which loads returned None, which returned the same
+\* document, which thread died of what, what the download cache holds.
+IsBeh(o) == "model_log" \in DOMAIN o
+Follows(o) == o.real_log = o.model_log /\ o.deadlock = ~o.model_terminal
+SameOutcome(o) == /\ o.real_err = o.model_err
+                  /\ Len(o.real_loads) = Len(o.model_loads)
+                  /\ \A i \in DOMAIN o.real_loads : i \in DOMAIN o.model_loads =>
+                        o.real_loads[i].url = o.model_loads[i].url /\ o.real_loads[i].none = o.model_loads[i].none
+                  /\ \A i, j \in DOMAIN o.real_loads : (i \in DOMAIN o.model_loads /\ j \in DOMAIN o.model_loads /\ ~o.real_loads[i].none /\ ~o.real_loads[j].none) =>
+                        ((o.real_loads[i].doc = o.real_loads[j].doc) <=> (o.model_loads[i].doc = o.model_loads[j].doc))
+                  /\ o.real_cache = o.model_cache
 Check(i) == LET o == Obs[i] IN
    /\ Chk(NoRaise(o), "C18", "NoCallRaises", o)
    /\ Chk(Transparent(o), "C18", "LoadIsTransparent", o)
@@ -16,6 +29,7 @@ Check(i) == LET o == Obs[i] IN
    /\ Chk(CacheSafe(o), "C18", "FailedFetchWritesNoCache", o)
    /\ Chk(Terminates(o), "C18", "NoCallBlocksForever", o)
    /\ IF o.trace_checked /\ ~o.trace_accepted THEN Say("DIVERGENCE", "-", "-", o) ELSE TRUE
+   /\ IF IsBeh(o) /\ ~(Follows(o) /\ SameOutcome(o)) THEN Say("DIVERGENCE", "-", "-", o) ELSE TRUE
 JInit == l = 1
 JNext == l <= Len(Obs) /\ (Check(l) = TRUE) /\ l' = l + 1
 JSpec == JInit /\ [][JNext]_l
